@@ -176,6 +176,8 @@ def binop(op, a, b, cmode=False):
 			if cmode and op is ast.Div and isinstance(a, int) and isinstance(b, int):
 				raise Unsupported('C integer division of constants')
 			return table[op](a, b), obl
+		if op is ast.Add and (type(a).__name__ == 'OpaqueStr' or type(b).__name__ == 'OpaqueStr') and isinstance(a if type(b).__name__ == 'OpaqueStr' else b, (str,)) | (type(a).__name__ == type(b).__name__):
+			return (a if type(a).__name__ == 'OpaqueStr' else b), obl     # an error text stays an irrelevant error text
 		raise Unsupported(f'binary operator on {a!r}, {b!r}')
 	# binary32
 	if isinstance(a, SF32) or isinstance(b, SF32):
